@@ -135,7 +135,7 @@ def first_import_choices(spec, tier):
     return list(dict.fromkeys(firsts))
 
 
-def run_tree(job, only_first=None):
+def run_tree(job, only_first=None, api_mode=None):
     name, files, nf, tier = job
     loader.install_shims()
     root = realflow.make_install(files, n_families=nf)
@@ -149,7 +149,27 @@ def run_tree(job, only_first=None):
 
         with ThreadPoolExecutor(max_workers=6) as ex:
             reports = list(ex.map(lambda f: realflow.probe(root, PROBE, [f, json.dumps(spec)]), firsts))
-        return name, len(firsts), [], reports
+        n = len(firsts)
+        # the package may also be produced through the generator's API: with the input root spelled '.', and after another
+        # tree (same type names in other directories) was generated in the same interpreter.  If the files are the same
+        # as protocol.py's, so is every import; if they differ, the namespace is probed again.
+        if only_first is None or api_mode:
+            ref = realflow.snapshot(realflow.generated_dir(root))
+            for mode in (["dot", "twin"] if "" not in files else ["dot"]) if api_mode is None else [api_mode]:
+                rc, out = realflow.run_generate_api(root, mode, files, nf)
+                n += 1
+                if rc != 0:
+                    if "twin" in mode and "twin-xml" in out and "generate(Path(os.path.join(root, \"twin-out\")))" in out:
+                        continue  # the rotated twin itself is not a valid tree for this shape: nothing to learn
+                    return name, n, [(f"generate-api-{mode}", f"tree '{name}': generating through the API ({mode}) failed: {out[-300:]}")], reports
+                if realflow.diff_snapshots(ref, realflow.snapshot(realflow.generated_dir(root))):
+                    more = [realflow.probe(root, PROBE, [f, json.dumps(spec)]) for f in (firsts[:2] if api_mode is None else firsts[:1])]
+                    for r in more:
+                        r["first"] = f"{r.get('first')} [package generated through the API: {mode}]"
+                        r["api_mode"] = mode
+                    reports += more
+                    n += len(more)
+        return name, n, [], reports
     finally:
         shutil.rmtree(root, ignore_errors=True)
 
@@ -190,7 +210,7 @@ def run(tier, seed):
     for name, nfirst, errs, reports in res:
         total += nfirst
         for k, what in errs:
-            violations.append({"key": f"{k}:{name}", "what": what, "case": {"tree": name}})
+            violations.append({"key": f"{k}:{name}", "what": what, "case": {"tree": name, "key": f"{k}:{name}"}})
         for key, what, first in judge_reports(name, reports):
             violations.append({"key": key, "what": what, "case": {"tree": name, "first": first, "key": key}})
     coverage = {
@@ -203,7 +223,7 @@ def run(tier, seed):
         "rule": "per tree: one fresh interpreter per first-import choice (eolib, every documented package and static module, the "
         "generated packages, and the generated modules - all of them in the thorough tier, every k-th in quick); each "
         "interpreter checks every documented path and every public static name / generated class for identity; each "
-        "(tree, first import) is a distinct configuration",
+        "(tree, first import) is a distinct configuration; each tree is also generated through the generator's API with the input root spelled '.', and after a twin tree (the same type names declared in other directories) was generated in the same interpreter - if the files differ from protocol.py's, the namespace is probed again",
         "samples": [{"tree": tl[1][0], "first_imports": first_import_choices(tree_spec(tl[1][1], tl[1][2]), tier)[:6]}],
     }
     return {"coverage": coverage, "violations": violations}
@@ -213,7 +233,13 @@ def replay(case):
     loader.install_shims()
     tl = {t[0]: t for t in trees.all_trees("thorough") + collision_trees()}
     name, files, nf = tl[case["tree"]]
-    _, _, errs, reports = run_tree((name, files, nf, "thorough"), only_first=case.get("first"))
+    first, api_mode = case.get("first"), None
+    if first and " [package generated through the API: " in first:
+        first, api_mode = first.split(" [package generated through the API: ")
+        api_mode = api_mode.rstrip("]")
+    elif case.get("key", "").startswith("generate-api-"):
+        api_mode = case["key"].split(":")[0][len("generate-api-"):]
+    _, _, errs, reports = run_tree((name, files, nf, "thorough"), only_first=first, api_mode=api_mode)
     if errs:
         return errs[0][1]
     for key, what, first in judge_reports(name, reports):
